@@ -59,10 +59,14 @@
 #ifndef VP_EMAX
 #define VP_EMAX 1000        /* bytes accepted before the step (inductive mode); only differences matter */
 #endif
+/* the object that holds the caller's data of ONE append */
 #if VP_OP == 0
-#  define VP_TOTAL (VP_S0 + VP_S1 + VP_S2 + 1)
+#  define VP_MAX2(a, b) ((a) > (b) ? (a) : (b))
+#  define VP_TOTAL (VP_MAX2(VP_S0, VP_MAX2(VP_S1, VP_S2)) + 1)
+#elif VP_OP == 1
+#  define VP_TOTAL (VP_MAXSZ + 1)
 #else
-#  define VP_TOTAL (VP_EMAX + 65536 + VP_MAXSZ + 1)
+#  define VP_TOTAL 1
 #endif
 #ifndef VP_NAME
 #define VP_NAME 0
@@ -183,7 +187,7 @@ vp_do_append(size_t size) {
   int w0 = vp_write_calls;
   int rc;
 
-  data.data = vp_stream + vp_appended;
+  data.data = vp_stream;
   data.size = size;
   data.alloc = 0;
   vp_cur_start = vp_appended;
